@@ -913,7 +913,7 @@ void vh_run(const vh::Case& cs, vh::Ctx& ctx) {
   std::string sample;
   uint32_t a_cur_sec = 0;                  // current section of the natural-order Assembler
   bool a_diverged = false;                 // a call was withheld from the natural-order Assembler
-  const bool force_xsec = ctx.opts && ctx.opts->geti("force-xsec", 0) != 0;
+  const bool force_xsec = ctx.opts && ctx.opts->geti("force-xsec", ctx.is_known("excluded:assembler-asserts-on-reference-to-label-bound-in-another-section") ? 0 : 1) != 0;
 
   // initial .text section node
   {
